@@ -32,7 +32,7 @@ class C08(Prop):
 
     def cases(self, rng, tier):
         out = []
-        N, D = (60, 40) if tier == "quick" else (400, 400)
+        N, D = (60, 40) if tier == "quick" else (150, 120)
         lims = (1, 2, 3, 6, 12) if tier == "quick" else range(1, 21)
         els = (1, 2, 8, 12) if tier == "quick" else range(1, 16)
         step = 1 if tier == "quick" else 7
@@ -160,9 +160,14 @@ class C19(Prop):
             for u in ("m", "s"):
                 for t in (f"2 {u}^{pw}", f"3 kg/{u}^{pw}", f"1 {u}^-{pw}"):
                     out.append(Case(f"cli {C.hexs(t)} decimal", "power-sweep", t))
+        # every power up to 1100 once (a truncation to 8 or 10 bits, a wrong digit loop bound, ...
+        # show up only at particular exponents), and a sample of larger ones
+        for pw in list(range(2, 1101 if tier != "quick" else 700)) + [4095, 4096, 4097, 65535, 65536, 65537, 99999, 1000001, 16777217]:
+            t = f"1 m^{pw}" if pw % 2 else f"1 s^-{pw}"
+            out.append(Case(f"cli {C.hexs(t)} decimal", "power-range", t))
         for t in ("2 m^6 * 2 m^6", "1 km^12", "1 m^5 * 1 m^7 / 1 s^13", "1 mm^2 * 1 km", "1 dam * 1 hm", "3 Mg", "1 kg * 1 Mg"):
             out.append(Case(f"cli {C.hexs(t)} decimal", "power-sweep", t))
-        n = 120 if tier == "quick" else 3000
+        n = 120 if tier == "quick" else 900
         for i in range(n):
             k = rng.below(4)
             if k == 0:
@@ -182,7 +187,7 @@ class C19(Prop):
             out.append(Case(f"cli {C.hexs(text)} {'exact' if i % 2 else 'decimal'}", f"random-{k}", text))
         # malformed stream
         toks = ["1", "+", "(", ")", "m", "to", "*", "^", ",", "foo", " ", "2.5", "%", "{", "}"]
-        for _ in range(40 if tier == "quick" else 1000):
+        for _ in range(40 if tier == "quick" else 300):
             t = "".join(rng.choice(toks) for _ in range(rng.range(1, 7)))
             out.append(Case(f"cli {C.hexs(t)} decimal", "malformed", t))
         return out
